@@ -154,7 +154,7 @@ func (m *Model) RunErrLine(s *Sink, rule string) {
 		okPath := false
 		for _, b := range pne.Blocks {
 			for _, in := range b.Instrs {
-				if c, ok := in.(*ssa.Call); ok && c.Call.StaticCallee() != nil && c.Call.StaticCallee().Name() == "New" && len(c.Call.Args) > 1 {
+				if c, ok := in.(*ssa.Call); ok && c.Call.StaticCallee() != nil && canonFnName(c.Call.StaticCallee()) == "New" && len(c.Call.Args) > 1 {
 					if fieldPathOf(c.Call.Args[1]) == ".filepath" && c.Call.Args[0] == ssa.Value(pne.Params[1]) {
 						okPath = true
 					}
@@ -173,7 +173,7 @@ func (m *Model) RunErrLine(s *Sink, rule string) {
 		ok := false
 		for _, b := range ene.Blocks {
 			for _, in := range b.Instrs {
-				if c, isC := in.(*ssa.Call); isC && c.Call.StaticCallee() != nil && c.Call.StaticCallee().Name() == "New" && len(c.Call.Args) > 1 {
+				if c, isC := in.(*ssa.Call); isC && c.Call.StaticCallee() != nil && canonFnName(c.Call.StaticCallee()) == "New" && len(c.Call.Args) > 1 {
 					lc, isL := c.Call.Args[0].(*ssa.Call)
 					if isL && lc.Call.IsInvoke() && lc.Call.Method.Name() == "Line" && lc.Call.Value == ssa.Value(ene.Params[1]) && strings.HasSuffix(fieldPathOf(c.Call.Args[1]), ".ctx.AbsPath") {
 						ok = true
@@ -193,7 +193,7 @@ func (m *Model) RunErrLine(s *Sink, rule string) {
 		ok := false
 		// String's body, including same-package helpers it hands the work to (parameters resolved along the call chain)
 		m.walkInlined(st, 2, func(in ssa.Instruction, resolve func(ssa.Value) ssa.Value, _ int) {
-			if c, isC := in.(*ssa.Call); isC && c.Call.StaticCallee() != nil && c.Call.StaticCallee().Name() == "NewContext" {
+			if c, isC := in.(*ssa.Call); isC && c.Call.StaticCallee() != nil && canonFnName(c.Call.StaticCallee()) == "NewContext" {
 				if ex, isEx := resolve(c.Call.Args[0]).(*ssa.Extract); isEx {
 					if src, isS := ex.Tuple.(*ssa.Call); isS && src.Call.StaticCallee() != nil && filepathAbsOfTemplate(m, src.Call.StaticCallee()) {
 						ok = true
@@ -215,8 +215,8 @@ func (m *Model) RunErrLine(s *Sink, rule string) {
 			if !isC || !isEvalCall(m, c) {
 				return
 			}
-			if nc, isN := resolve(c.Call.Args[0]).(*ssa.Call); isN && nc.Call.StaticCallee() != nil && nc.Call.StaticCallee().Name() == "New" && inPkg(nc.Call.StaticCallee(), "evaluator") {
-				if cc, isCC := resolve(nc.Call.Args[0]).(*ssa.Call); isCC && cc.Call.StaticCallee() != nil && cc.Call.StaticCallee().Name() == "NewContext" {
+			if nc, isN := resolve(c.Call.Args[0]).(*ssa.Call); isN && nc.Call.StaticCallee() != nil && canonFnName(nc.Call.StaticCallee()) == "New" && inPkg(nc.Call.StaticCallee(), "evaluator") {
+				if cc, isCC := resolve(nc.Call.Args[0]).(*ssa.Call); isCC && cc.Call.StaticCallee() != nil && canonFnName(cc.Call.StaticCallee()) == "NewContext" {
 					ok = true
 				}
 			}
@@ -232,7 +232,7 @@ func (m *Model) RunErrLine(s *Sink, rule string) {
 		ok := false
 		for _, b := range pp.Blocks {
 			for _, in := range b.Instrs {
-				if c, isC := in.(*ssa.Call); isC && c.Call.StaticCallee() != nil && c.Call.StaticCallee().Name() == "New" && inPkg(c.Call.StaticCallee(), "parser") {
+				if c, isC := in.(*ssa.Call); isC && c.Call.StaticCallee() != nil && canonFnName(c.Call.StaticCallee()) == "New" && inPkg(c.Call.StaticCallee(), "parser") {
 					if c.Call.Args[1] == ssa.Value(pp.Params[0]) {
 						ok = true
 					}
@@ -264,14 +264,14 @@ func (m *Model) RunErrLine(s *Sink, rule string) {
 		for _, b := range fn.Blocks {
 			for _, in := range b.Instrs {
 				c, isC := in.(*ssa.Call)
-				if !isC || c.Call.StaticCallee() == nil || c.Call.StaticCallee().Name() != "New" || len(c.Call.Args) < 4 {
+				if !isC || c.Call.StaticCallee() == nil || canonFnName(c.Call.StaticCallee()) != "New" || len(c.Call.Args) < 4 {
 					continue
 				}
 				msg, _ := constOfValue(c.Call.Args[3])
 				if !strings.Contains(msg, spec.msg) {
 					continue
 				}
-				if lc, isL := c.Call.Args[0].(*ssa.Call); isL && lc.Call.StaticCallee() != nil && lc.Call.StaticCallee().Name() == "Line" {
+				if lc, isL := c.Call.Args[0].(*ssa.Call); isL && lc.Call.StaticCallee() != nil && canonFnName(lc.Call.StaticCallee()) == "Line" {
 					ok = true
 				}
 			}
